@@ -99,6 +99,10 @@ func c16fields() []c16field {
 		{name: "Untagged", typ: reflect.TypeOf(""), tag: ``, key: "untagged",
 			vals: []c16val{{`"u1"`, "u1", true}, {`"u2"`, "u2", true}},
 			zero: "", sentinel: func() reflect.Value { return rv("SENT") }, sentNorm: "SENT"},
+		// a tag with upper-case letters: keys are matched as spelled (the lower-case look-alike is an unknown key)
+		{name: "MC", typ: reflect.TypeOf(""), tag: `yaml:"softFail,omitempty"`, key: "softFail",
+			vals: []c16val{{`"m1"`, "m1", true}, {`"m2"`, "m2", true}},
+			zero: "", sentinel: func() reflect.Value { return rv("SENT") }, sentNorm: "SENT"},
 		{name: "Dash", typ: reflect.TypeOf(""), tag: `yaml:"-"`, key: "dash", dash: true,
 			vals: []c16val{{`"d1"`, "d1", true}, {`[1]`, []any{1}, true}},
 			zero: "", sentinel: func() reflect.Value { return rv("SENT") }, sentNorm: "SENT"},
@@ -243,10 +247,11 @@ func c16docJSON(keys []string, st map[string]int, valsOf func(string) []c16val) 
 }
 
 var c16extraVals = map[string][]c16val{
-	"zz": {{`1`, 1, true}, {`{"n":{"o":[1]}}`, map[string]any{"n": map[string]any{"o": []any{1}}}, true}},
-	"":   {{`"e1"`, "e1", true}},
-	"q":  {{`"q1"`, "q1", true}},
-	"r":  {{`[4]`, []any{4}, true}},
+	"zz":       {{`1`, 1, true}, {`{"n":{"o":[1]}}`, map[string]any{"n": map[string]any{"o": []any{1}}}, true}},
+	"":         {{`"e1"`, "e1", true}},
+	"q":        {{`"q1"`, "q1", true}},
+	"softfail": {{`"lc"`, "lc", true}},
+	"r":        {{`[4]`, []any{4}, true}},
 }
 
 type c16payload struct {
@@ -532,6 +537,11 @@ func c16keysOf(t c16type) []string {
 		keys = append(keys, f.aliases...)
 	}
 	keys = append(keys, "zz", "")
+	for _, f := range t.fields {
+		if lc := strings.ToLower(f.key); lc != f.key {
+			keys = append(keys, lc)
+		}
+	}
 	if t.inline == "struct" {
 		keys = append(keys, "q", "r")
 	}
@@ -702,8 +712,8 @@ func c16run(w *report.W) {
 func init() {
 	register(&report.Check{
 		ID: "C16",
-		Rule: "programs x inputs: every struct type built with reflect.StructOf from <=2 (quick) / <=3 (thorough) fields of a 17-field alphabet (string,int,bool,float64,[]string,[]int," +
-			"map[string]string,map[string]any,any,nested struct,pointer to struct,untagged,yaml:\"-\",four alias-carrying fields two of which share a primary key with an alias-free or differently aliased field) x inline part in {none,map[string]any,*ordered.MapSA,struct}; " +
+		Rule: "programs x inputs: every struct type built with reflect.StructOf from <=2 (quick) / <=3 (thorough) fields of an 18-field alphabet (string,int,bool,float64,[]string,[]int," +
+			"map[string]string,map[string]any,any,nested struct,pointer to struct,untagged,a tag with upper-case letters (plus its lower-case look-alike as an unknown key),yaml:\"-\",four alias-carrying fields two of which share a primary key with an alias-free or differently aliased field) x inline part in {none,map[string]any,*ordered.MapSA,struct}; " +
 			"for each type every document over its keys + aliases + an unknown key + the empty-string key (+ the inline struct's keys), each key absent / null / one of its 2-5 values, " +
 			"in forward and reversed key order, into a sentinel-prefilled and a zero destination; compared with the partition rule (field values, inline content and order) and, for alias-free " +
 			"well-typed cases, with yaml.v3's Node.Decode into the same reflect type. Non-trivial = at least one key present.",
